@@ -79,7 +79,11 @@ class Ctx:
         raise AnalysisError(msg)
 
     def require(self, thing, msg: str):
+        """A mechanism that a rule needs inside an anchor that *was* found.  If it is missing the current rule
+        records a violation (the mechanism the property relies on is gone) and the analysis of this property stops."""
         if thing is None or thing is False or (hasattr(thing, "__len__") and len(thing) == 0):
+            cur = list(self.rules_applied)[-1] if self.rules_applied else "R?"
+            self.fail(cur, f"missing-mechanism::{msg[:120]}", msg + " (the mechanism this rule relies on is no longer there)")
             raise AnalysisError(msg)
         return thing
 
